@@ -122,7 +122,7 @@ def census(fn: ast.FunctionDef, fold: Folder, helper_sites: dict[str, list[dict]
             f = ast.unparse(node.func)
             if helper_sites and f in helper_sites:
                 for hs in helper_sites[f]:
-                    sites.append(dict(hs, line=node.lineno, col=node.col_offset, via=f))
+                    sites.append(dict(hs, line=node.lineno, col=node.col_offset, via=f, ordnode=node))
             elif f in STRUCT_FUNCS:
                 if not node.args:
                     raise TranslateError(f'{fn.name}: line {node.lineno}: {f} without format')
@@ -150,11 +150,26 @@ def census(fn: ast.FunctionDef, fold: Folder, helper_sites: dict[str, list[dict]
         k = layout_key(node)
         if k is not None and k != 'LEAF_AREA_OFFSET':
             sites.append({'line': node.lineno, 'col': node.col_offset, 'call': 'layout', 'desc': ('key', k), 'node': node, 'owner': fn})
-    sites.sort(key=lambda s: (s['line'], s['col']))
+    # order of appearance in the (normalised) tree, not line numbers: a branch moved by the normaliser keeps its old lines
+    order: dict[int, int] = {}
+
+    def number(n: ast.AST) -> None:
+        order[id(n)] = len(order)
+        for c in ast.iter_child_nodes(n):
+            number(c)
+    number(fn)
+    for st in sites:
+        st['ord'] = order.get(id(st.get('ordnode', st.get('node'))), None)
+    if all(st['ord'] is not None for st in sites):
+        sites.sort(key=lambda s: s['ord'])
+    else:
+        sites.sort(key=lambda s: (s['line'], s['col']))
     return sites
 
 
 # Pairing of reader and writer sites.  (function, ordinal) ; a stream = applicability, alternatives read, alternatives written.
+# Ordinals count the sites of the NORMALISED function (c11_norm: a local that names `self.lump_layout['K']` is replaced by the
+# table entry, so every pack/unpack through it is a site whether or not the look-up was hoisted).
 # Every alternative of a stream must have the same layout (concatenation of its sites' formats).
 ALL = '*'
 NONVIT = '!VITAMIN'
@@ -165,13 +180,13 @@ STREAMS: list[tuple[str, str, list[list[tuple[str, int]]], list[list[tuple[str, 
     ('vertexes', ALL, [[('_lmp_read_vertexes', 0)]], [[('_lmp_write_vertexes', 0)]]),
     ('edges', ALL, [[('_lmp_read_surfedges', 0)]], [[('_lmp_write_surfedges', 1)]]),
     ('surfedges', ALL, [[('_lmp_read_surfedges', 1)]], [[('_lmp_write_surfedges', 0)]]),
-    ('primverts', ALL, [[('_lmp_read_primitives', 0)]], [[('_lmp_write_primitives', 1)]]),
+    ('primverts', ALL, [[('_lmp_read_primitives', 0)]], [[('_lmp_write_primitives', 0)]]),
     ('primindices', ALL, [[('_lmp_read_primitives', 1)]], [[('_lmp_write_primitives', 2)]]),
-    ('primitives', ALL, [[('_lmp_read_primitives', 2)]], [[('_lmp_write_primitives', 0)]]),
+    ('primitives', ALL, [[('_lmp_read_primitives', 2)]], [[('_lmp_write_primitives', 1)]]),
     ('faceids', ALL, [[('_read_faces_common', 0)]], [[('_write_faces_common', 2)]]),
     ('faces', NONVIT, [[('_read_faces_common', 1)]], [[('_write_faces_common', 1)]]),
     ('faces_vitamin', VIT, [[('_read_faces_common', 1)]], [[('_write_faces_common', 0)]]),
-    ('brushsides', NONVIT, [[('_lmp_read_brushes', 1)]], [[('_lmp_write_brushes', 1)]]),
+    ('brushsides', NONVIT, [[('_lmp_read_brushes', 1)]], [[('_lmp_write_brushes', 2)]]),
     ('brushsides_vitamin', VIT, [[('_lmp_read_brushes', 0)]], [[('_lmp_write_brushes', 1)]]),
     ('brushes', ALL, [[('_lmp_read_brushes', 2)]], [[('_lmp_write_brushes', 0)]]),
     ('leafwaterdata', ALL, [[('_lmp_read_water_leaf_info', 0)]], [[('_lmp_write_water_leaf_info', 0)]]),
@@ -451,7 +466,7 @@ def attrs_fields(tree: ast.Module, cls: str) -> list[str]:
 
 
 # ------------------------------------------------------------------------------------------------ Ns guards
-def find_guard(fn: ast.FunctionDef, call: ast.Call, exprs: list[str]) -> tuple[int, int] | None:
+def find_guard(fn: ast.FunctionDef, call: ast.Call, exprs: list[str], fold: 'Folder | None' = None) -> tuple[int, int] | None:
     """A dominating `if len(E) <cmp> K: raise ...` before `call` where E is one of the packed expressions.
     Returns (min_len, max_len) admitted by the guard(s)."""
     parents: dict[int, ast.AST] = {}
@@ -485,13 +500,18 @@ def find_guard(fn: ast.FunctionDef, call: ast.Call, exprs: list[str]) -> tuple[i
         if not isinstance(st, ast.If) or st.orelse or not st.body or not isinstance(st.body[-1], ast.Raise):
             continue
         t = st.test
-        if not (isinstance(t, ast.Compare) and len(t.ops) == 1 and isinstance(t.left, ast.Call)
-                and ast.unparse(t.left.func) == 'len' and isinstance(t.comparators[0], ast.Constant)
-                and isinstance(t.comparators[0].value, int)):
+        if not (isinstance(t, ast.Compare) and len(t.ops) == 1 and isinstance(t.left, ast.Call) and ast.unparse(t.left.func) == 'len'):
+            continue
+        # the bound: a literal, or a constant expression over module-level constants (`LIMIT`, `LIMIT - 1`)
+        try:
+            k = fold.fold(t.comparators[0]) if fold is not None else (t.comparators[0].value if isinstance(t.comparators[0], ast.Constant) else None)
+        except (KeyError, TranslateError):
+            k = None
+        if type(k) is not int:
             continue
         if ast.unparse(t.left.args[0]) not in exprs:
             continue
-        k, op = t.comparators[0].value, t.ops[0]
+        op = t.ops[0]
         if isinstance(op, ast.Gt):
             hi = k if hi is None else min(hi, k)
         elif isinstance(op, ast.GtE):
@@ -520,7 +540,8 @@ def packed_exprs(fn: ast.FunctionDef, call: ast.Call) -> list[str]:
 
 # ------------------------------------------------------------------------------------------------ main
 def translate() -> tuple[str, dict]:
-    tree = ast.parse(src_text('bsp.py'))
+    from translate import c11_norm
+    tree = c11_norm.module(src_text('bsp.py'))
     consts: dict[str, Any] = {}
     for n in tree.body:
         if isinstance(n, ast.Assign) and len(n.targets) == 1 and isinstance(n.targets[0], ast.Name) \
@@ -683,7 +704,7 @@ def translate() -> tuple[str, dict]:
                     raise TranslateError(f'{fn}: line {s["line"]}: Ns format in a writer but no pack call found for it')
                 continue
             for call in calls:
-                g = find_guard(f, call, packed_exprs(f, call))
+                g = find_guard(f, call, packed_exprs(f, call), fold)
                 for lname, w in widths:
                     nm = f'{fn}:{s["line"]}:{lname}'
                     ns_lines.append(f'  ({coq_s(nm)}, {w}%nat, {"None" if g is None else "Some (%d%%nat, %d%%nat)" % g})')
